@@ -48,6 +48,7 @@ type FuncContract struct {
 	Protocols    []ProtoUse
 	AtAtomic     map[int][]GhostUpd // ordinal of the atomic operation on a protected field -> ghost updates
 	RangeInv     map[int][]Clause   // ordinal of the Range(func...) call -> invariants of the iteration
+	AtMake       []Clause           // checked at every make([]T, n, c): n and c name the requested length and capacity
 	File         string
 	Line         int
 	Used         bool
@@ -464,6 +465,16 @@ func (cs *Contracts) loadContractFile(path string, pkgPath string) error {
 						cur.AtAtomic = map[int][]GhostUpd{}
 					}
 					cur.AtAtomic[k] = append(cur.AtAtomic[k], GhostUpd{Ghost: fs[3], Expr: e, Src: src})
+					break
+				}
+				if len(fs) >= 3 && fs[0] == "make" && fs[1] == "assert" {
+					// at make assert [label] expr   (n, c: requested length and capacity)
+					idx := strings.Index(rest, " assert ")
+					c, err := mkClause("assert", strings.TrimSpace(rest[idx+len(" assert "):]), 0)
+					if err != nil {
+						return err
+					}
+					cur.AtMake = append(cur.AtMake, c)
 					break
 				}
 				if len(fs) >= 4 && fs[0] == "range" && fs[2] == "invariant" {
